@@ -281,13 +281,17 @@ ObsOutEnd(h, p) ==
 GateOf(a) == OpTab[a].aw
 WaitsUnfired(h, a) == (\E i \in 1..Len(GateOf(a)) : GateOf(a)[i] > 0 /\ GateOf(a)[i] \notin h.fired) \/ (OpTab[a].block # 0 /\ OpTab[a].block \notin h.fired) \/ (K(a) = "after" /\ OpTab[a].g \notin h.fired)
 UnresumedSusp(h, o) == \E s \in Ops : K(s) = "suspend" /\ O(s) = o /\ s \in h.called /\ s \notin h.resumed
-StuckObj(h, o) == \/ \E a \in Ops : O(a) = o /\ a \in h.called /\ a \notin h.ended /\ WaitsUnfired(h, a)
-                  \/ UnresumedSusp(h, o)
-                  \/ \E a \in h.panicked : O(a) = o
-                  \/ \E a \in Ops : O(a) = o /\ K(a) = "fsync" /\ a \in h.called /\ a \notin h.cancel /\ a \notin h.ended /\ a \notin h.polled
+Stuck0(h, o) == \/ \E a \in Ops : O(a) = o /\ a \in h.called /\ a \notin h.ended /\ WaitsUnfired(h, a)
+                \/ UnresumedSusp(h, o)
+                \/ \E a \in h.panicked : O(a) = o
+                \/ \E a \in Ops : O(a) = o /\ K(a) = "fsync" /\ a \in h.called /\ a \notin h.cancel /\ a \notin h.ended /\ a \notin h.polled
+\* Operations whose closure is inside a call (a nested sync, a drop) on a stuck object: they cannot finish either, their thread is occupied
+\* for ever and their own object waits with them (found by a generated program: D(b)[S(a)] with a waiting for an event that is never fired)
+NestedStuck(h) == {a \in Ops : h.scnt[a] > 0 /\ a \notin h.ended /\ \E b \in h.called : OpTab[b].par = a /\ h.rets[b] = NoRet /\ Stuck0(h, O(b))}
+StuckObj(h, o) == Stuck0(h, o) \/ \E a \in NestedStuck(h) : O(a) = o
 \* Body steps are executed on behalf of their parent: if the parent's object is stuck or the parent never ran, so is the child
 \* Threads occupied for ever by operations that block their thread on an unfired gate
-Blockers(h) == {a \in Ops : OpTab[a].block # 0 /\ OpTab[a].block \notin h.fired /\ h.scnt[a] > 0 /\ a \notin h.ended}
+Blockers(h) == {a \in Ops : OpTab[a].block # 0 /\ OpTab[a].block \notin h.fired /\ h.scnt[a] > 0 /\ a \notin h.ended} \cup NestedStuck(h)
 PoolAvailable(h) == h.minMax >= 1 /\ Cardinality(Blockers(h)) < h.minMax /\ h.panicked = {}
 
 ObsQuiescent(h, qs, single) ==
@@ -336,6 +340,13 @@ ObsQuiescent(h, qs, single) ==
                      /\ \E a \in Ops : notDone(a) /\ healthy(O(a)) /\ O(a) \notin h.atRisk /\ ~StuckObj(h, O(a)) /\ K(a) # "fsync", "C15:healthy-stranded")
       \* C15: a call on a panicked object must fail loudly, not block for ever
       h6 == Viol(h5, \E a \in h.loud : h.rets[a] = NoRet, "C15:not-loud")
-  IN  h6
+      \* C10 (and C09's "never blocks"): a scheduling call that does not wait for its operation (desync, try_sync, a future-returning call
+      \* whose future is not awaited on the spot) always returns: nothing another object is doing - a blocked job, a thread being
+      \* despawned - may hold it up. (try_sync runs its closure inside the call: left out when that closure blocks or makes calls.)
+      h7 == Viol(h6, h.panicked = {} /\ \E a \in h.called : h.rets[a] = NoRet
+                       /\ \/ K(a) = "desync"
+                          \/ K(a) = "try_sync" /\ OpTab[a].block = 0 /\ OpTab[a].body = << >>
+                          \/ K(a) \in {"fdesync", "fsync", "after", "suspend"} /\ OpTab[a].then \notin {"await", "sync"}, "C10:call-blocked")
+  IN  h7
 
 =============================================================================
